@@ -633,31 +633,32 @@ class ExecuteStep(BaseStep):
         connectors: MutableMapping[str, Connector],
         unfinished: MutableSet[asyncio.Task[MutableMapping[str, Token] | Status]],
     ) -> None:
-        if (
-            job := await cast(JobPort, self.get_input_port("__job__")).get_job(
-                self.name
-            )
-        ) is not None:
-            # Group inputs by tag
-            _group_by_tag(inputs, inputs_map)
-            # Process tags
-            for tag in list(inputs_map.keys()):
-                if len(inputs_map[tag]) == len(input_ports):
-                    inputs = inputs_map.pop(tag)
-                    # Set status to fireable
-                    await self._set_status(Status.FIREABLE)
-                    # Run job
-                    unfinished.add(
-                        asyncio.create_task(
-                            self._run_job(job, inputs, connectors),
-                            name=job.name,
-                        )
+        # Group inputs by tag
+        _group_by_tag(inputs, inputs_map)
+        # Process tags
+        for tag in list(inputs_map.keys()):
+            if len(inputs_map[tag]) == len(input_ports):
+                # Each complete group of inputs runs with its own job: the `ScheduleStep`
+                # emits one job per complete group, in the same order
+                if (
+                    job := await cast(
+                        JobPort, self.get_input_port("__job__")
+                    ).get_job(self.name)
+                ) is None:
+                    return
+                inputs = inputs_map.pop(tag)
+                # Set status to fireable
+                await self._set_status(Status.FIREABLE)
+                # Run job
+                unfinished.add(
+                    asyncio.create_task(
+                        self._run_job(job, inputs, connectors),
+                        name=job.name,
                     )
-            unfinished.add(
-                asyncio.create_task(
-                    self._get_inputs(input_ports), name="retrieve_inputs"
                 )
-            )
+        unfinished.add(
+            asyncio.create_task(self._get_inputs(input_ports), name="retrieve_inputs")
+        )
 
     @classmethod
     async def _load(
